@@ -181,3 +181,57 @@ pub fn run(case: &J) -> R<J> {
 pub fn drive(_seed: u64, _n: usize) -> Vec<J> {
     vec![]
 }
+
+// ---------------------------------------------------------------- permission queries (C14)
+pub fn run_query(case: &J) -> R<J> {
+    use cedar_policy::{ActionQueryRequest, PrincipalQueryRequest, ResourceQueryRequest};
+    if let Some(s) = case.get("setup") {
+        return do_setup(s);
+    }
+    TSETUP.with(|cell| {
+        let b = cell.borrow();
+        let setup = b.as_ref().ok_or("no setup")?;
+        let schema = &setup.schema;
+        let mut ps = PolicySet::new();
+        for p in case["pols"].as_array().ok_or("pols")? {
+            add_policy(&mut ps, p, p["id"].as_str().ok_or("id")?, 0)?;
+        }
+        let (base_w, _, ents) = setup.envs.get(&case["base"].to_string()).ok_or("base env not in universe")?;
+        let pu: EntityUid = uid_from_wire(&base_w["req"]["principal"])?.into();
+        let ru: EntityUid = uid_from_wire(&base_w["req"]["resource"])?.into();
+        let au: EntityUid = uid_from_wire(&base_w["req"]["action"])?.into();
+        let ctx = || -> R<cedar_policy::Context> { Ok(context_from_wire(&base_w["req"]["context"])?.into()) };
+        let mut qerr: Vec<J> = vec![];
+        let sorted = |mut v: Vec<J>| -> J {
+            v.sort_by_key(|x| x.to_string());
+            J::Array(v)
+        };
+        let resource = match ResourceQueryRequest::new(pu.clone(), au.clone(), ru.type_name().clone(), ctx()?, schema) {
+            Ok(rq) => match ps.query_resource(&rq, ents, schema) {
+                Ok(it) => sorted(it.map(|u| uid_to_wire(u.as_ref())).collect()),
+                Err(e) => { qerr.push(json!(e.to_string())); json!([]) }
+            },
+            Err(e) => { qerr.push(json!(e.to_string())); json!([]) }
+        };
+        let principal = match PrincipalQueryRequest::new(pu.type_name().clone(), au.clone(), ru.clone(), ctx()?, schema) {
+            Ok(rq) => match ps.query_principal(&rq, ents, schema) {
+                Ok(it) => sorted(it.map(|u| uid_to_wire(u.as_ref())).collect()),
+                Err(e) => { qerr.push(json!(e.to_string())); json!([]) }
+            },
+            Err(e) => { qerr.push(json!(e.to_string())); json!([]) }
+        };
+        let pents = PartialEntities::from_concrete(ents.clone(), schema).map_err(|e| format!("from_concrete: {e}"))?;
+        let actions = match ActionQueryRequest::new(PartialEntityUid::from_concrete(pu), PartialEntityUid::from_concrete(ru), None, schema.clone()) {
+            Ok(rq) => match ps.query_action(&rq, &pents) {
+                Ok(it) => sorted(
+                    it.map(|(a, d)| json!([uid_to_wire(a.as_ref()), match d { Some(Decision::Allow) => "Allow", Some(Decision::Deny) => "Deny", None => "None" }]))
+                        .collect(),
+                ),
+                Err(e) => { qerr.push(json!(e.to_string())); json!([]) }
+            },
+            Err(e) => { qerr.push(json!(e.to_string())); json!([]) }
+        };
+        Ok(json!({"ev": "Query", "id": case.get("id").cloned().unwrap_or(json!(0)), "pols": with_record_keys(&case["pols"]), "base": case["base"],
+                  "resource": resource, "principal": principal, "actions": actions, "qerr": qerr}))
+    })
+}
